@@ -231,6 +231,31 @@ class StoreHistory:
                        got=fg, expected=fe)
         self.rec.cls(f'iter:{self.session}')
 
+    def op_iter_overlapping(self):
+        """Two iterations over the same store object at once."""
+        self.log.append(('iter-overlapping',))
+        fe = [trajgen.fingerprint(s) for s in self.model]
+        try:
+            pairs = [(trajgen.fingerprint(a), trajgen.fingerprint(b))
+                     for a, b in zip(self.store, self.store)]
+            nested = []
+            for a in self.store:
+                inner = [trajgen.fingerprint(b) for b in self.store]
+                nested.append((trajgen.fingerprint(a), inner))
+                if len(nested) >= 3:
+                    break
+        except Exception as e:  # noqa: BLE001
+            self._fail('iteration raised', error=f'{type(e).__name__}: {e}')
+        self.rec.ev()
+        if pairs != list(zip(fe, fe)):
+            self._fail('two simultaneous iterations over one store disturb each other',
+                       got=pairs[:6], expected=list(zip(fe, fe))[:6])
+        for i, (a, inner) in enumerate(nested):
+            if a != fe[i] or inner != fe:
+                self._fail('two simultaneous iterations over one store disturb each other',
+                           outer=a, expected_outer=fe[i], inner=inner[:6])
+        self.rec.cls(f'iter-overlapping:{self.session}')
+
     def op_sync(self):
         self.log.append(('sync',))
         try:
